@@ -835,7 +835,7 @@ theorem api_functions :
       UrlParts.ensureProtocol (upperQuoted (strip (UrlParts.stripControl url))) dp) :=
   ⟨fun _ => rfl, rfl, rfl, rfl, fun _ _ => rfl⟩
 
-/-! ## `safely_unquote_auth_item` since FX-C01-NFKCUSERINFO: the partial, then `requoteNfkc` -/
+/-! ## `safely_unquote_auth_item` since FX-C01-194b1c7: the partial, then `requoteNfkc` -/
 
 /-- **table obligation** (the model describes the code): the real `safely_unquote_auth_item`
 differs from `partial(unquote, …)` of the regenerated configuration exactly on the non-ASCII code
@@ -912,7 +912,7 @@ theorem nfkcToks_map_upperTok (ts : List Tok) :
     | stray => rfl
 
 /-- **`safely_unquote_auth_item`, for every string** — the clauses of `api_unquote_contract` for
-the function the API runs on a user name / password since FX-C01-NFKCUSERINFO: same decoded bytes;
+the function the API runs on a user name / password since FX-C01-194b1c7: same decoded bytes;
 no raw space; no control character more often than in the input; no stray `%`; idempotent;
 idempotent when followed by `safely_quote`, and `safely_quote` after it is `safely_quote` after the
 bare partial (quoted mode never changed); commutes with `upper_quoted`; the delimiters
